@@ -112,33 +112,22 @@ class _KF_C07_1:
 # by a reader written from the PROV-JSON specification: the key of the document-level "bundle" object is then printed with a prefix
 # that only the bundle's own "prefix" map declares (or that the document's map binds to another URI).
 # ---------------------------------------------------------------------------------------------------------
-@finding("KF-C10-1", ["C10"])
-class _KF_C10_1:
-    @staticmethod
-    def trigger(case):
-        return case.get("fmt") == "json" and any(op[0] == "attach" for op in case.get("ops", []))
-
-    @staticmethod
-    def neutralise(case):
-        # every stand-alone bundle becomes a bundle created by the document (doc.bundle(id)): same records, same declarations,
-        # but the identifier is resolved -- and so declared -- in the document's scope
-        ops, attach = [], {op[1]: op for op in case["ops"] if op[0] == "attach"}
-        n = 0
-        for op in case["ops"]:
-            if op[0] == "attach":
-                continue
-            if op[0] == "sbundle":
-                ident = op[2] if op[2] is not None else (attach.get(op[1]) or [None, None, None])[2]
-                if ident is None:
-                    return None
-                ops.append(["bundle", op[1], ident])
-                for p, u in (op[3] if len(op) > 3 and op[3] else []):
-                    ops.append(["ns", op[1], p, u])
-                n += 1
-            else:
-                ops.append(op)
-        case["ops"] = ops
-        return case if n else None
+def bundle_scope_finding(cid, st, notes):
+    """KF-C10-1 for the texts in which a bundle identifier is a document-level name (PROV-JSON 'bundle' keys, PROV-N bundle headers).
+    notes: the independent reader's notes.  Returns the finding id iff the finding is open and *every* bundle identifier that does not
+    resolve (to the same URI) with the document's own declarations belongs to a bundle that was created stand-alone and attached with
+    add_bundle() -- the call site of the finding.  Any other bundle with such an identifier stays a violation."""
+    if "KF-C10-1" not in OPEN or cid not in ("C10", "C06"):
+        return None
+    offending = {x[1] for x in notes.get("bundle_ids_outside_document_scope", [])} | {x[1] for x in notes.get("ambiguous_bundle_ids", [])}
+    if not offending:
+        return None
+    attached = set()
+    for t in st.standalone:
+        b = st.tg.get(t)
+        if b is not None and t not in st.detached and b.identifier is not None:
+            attached.add(b.identifier.uri)
+    return "KF-C10-1" if offending <= attached else None
 
 
 # ---------------------------------------------------------------------------------------------------------
